@@ -80,7 +80,9 @@ where
             x: 0,
             y: 0,
             size: crop_area.size,
-            row_skip: (size.width - crop_area.size.width) as usize,
+            // A zero sized crop area is returned unclipped by `intersection` and can be wider than
+            // `size`. No colors are returned in this case and the value of `row_skip` is unused.
+            row_skip: size.width.saturating_sub(crop_area.size.width) as usize,
         }
     }
 }
